@@ -55,17 +55,33 @@ def list_candidates(trace, path):
         yield with_path(trace, path, keep)
 
 
-def minimise(prop, trace, violation, budget_s=45, max_exec=3000):
+def minimise(prop, trace, violation, budget_s=45, max_exec=3000, execute=None, stall_s=120):
+    """*execute* defaults to ``prop.execute``; the runner passes its own wrapper (step budgets).  Every
+    candidate runs under the wall-clock alarm: a candidate that does not come back ends the minimisation
+    with the best trace so far (this process may have been left in any state)."""
+    from . import stall
     sig = violation.sig
     t_end = time.time() + budget_s
     nexec = 0
     best_v = violation
+    run = execute or prop.execute
+    stalled = []
 
     def fails(t):
         nonlocal nexec, best_v
+        if stalled:
+            return None
         nexec += 1
         try:
-            res = prop.execute(copy.deepcopy(t))
+            try:
+                stall.arm(stall_s)
+                res = run(copy.deepcopy(t))
+            finally:
+                stall.disarm()
+        except stall.Stalled:
+            stall.disarm()
+            stalled.append(nexec)
+            return None
         except Exception:
             return None
         for v in res.violations:
@@ -81,10 +97,10 @@ def minimise(prop, trace, violation, budget_s=45, max_exec=3000):
         return trace, violation, nexec
     cur = r
     improved = True
-    while improved and time.time() < t_end and nexec < max_exec:
+    while improved and time.time() < t_end and nexec < max_exec and not stalled:
         improved = False
         for cand in prop.shrink(cur):
-            if time.time() >= t_end or nexec >= max_exec:
+            if time.time() >= t_end or nexec >= max_exec or stalled:
                 break
             r = fails(cand)
             if r is not None:
@@ -92,5 +108,6 @@ def minimise(prop, trace, violation, budget_s=45, max_exec=3000):
                 improved = True
                 break
     # final confirmation run fixes best_v to the minimised trace's violation
-    fails(cur)
+    if not stalled:
+        fails(cur)
     return cur, best_v, nexec
